@@ -9,8 +9,11 @@ import (
 
 	"fmt"
 	"regexp"
+	"runtime"
 	"sort"
 	"strings"
+	"sync"
+	"sync/atomic"
 	"time"
 )
 
@@ -70,6 +73,7 @@ func sessionAlphabet(n int) []sOp {
 }
 
 var hex32 = regexp.MustCompile(`^[0-9a-f]{32,}$`)
+var visitsRe = regexp.MustCompile(`visits=(\w+) pv=([^;]*);`)
 
 func runSession(c *hk.Ctx) {
 	cfgs := []hk.SrvCfg{}
@@ -170,6 +174,69 @@ func runSession(c *hk.Ctx) {
 		runSessionHistory(c, cfg, h, foreignID, dist)
 	}
 	c.SetExtra("status_distribution", dist)
+	runConcurrentDeletes(c)
+}
+
+// runConcurrentDeletes: overlapping DELETEs of one live id — exactly one of them ends the session (200), every other one
+// bears an already deleted id (404); the same for an overlapping DELETE and request: the request is served (200) or refused
+// (404), never anything else, and afterwards the id is gone.
+func runConcurrentDeletes(c *hk.Ctx) {
+	f := hk.NewFixture(hk.SrvCfg{Mode: "stateful", Get: true, PostSSE: false})
+	defer f.Close()
+	rounds, k := 400, 4
+	if c.Thorough() {
+		rounds = 4000
+	}
+	bad := 0
+	for i := 0; i < rounds && bad == 0; i++ {
+		r := f.Post(map[string]string{"Accept": "application/json"}, bodies["initOk"])
+		sid := ""
+		if r.Header != nil {
+			sid = r.Header.Get("Mcp-Session-Id")
+		}
+		if r.Status != 200 || sid == "" {
+			continue
+		}
+		var ready, goFlag int32
+		res := make([]int, k)
+		var wg sync.WaitGroup
+		for j := 0; j < k; j++ {
+			wg.Add(1)
+			go func(j int) {
+				defer wg.Done()
+				atomic.AddInt32(&ready, 1)
+				for atomic.LoadInt32(&goFlag) == 0 {
+					runtime.Gosched()
+				}
+				res[j] = f.Do("DELETE", f.URL, map[string]string{"Mcp-Session-Id": sid}, nil).Status
+			}(j)
+		}
+		for atomic.LoadInt32(&ready) < int32(k) {
+			runtime.Gosched()
+		}
+		atomic.StoreInt32(&goFlag, 1)
+		wg.Wait()
+		ok, nf := 0, 0
+		for _, s := range res {
+			if s == 200 {
+				ok++
+			} else if s == 404 {
+				nf++
+			}
+		}
+		c.Count("concurrent-delete", ok == 1, nil, fmt.Sprintf("ok-%d", ok))
+		if ok != 1 || ok+nf != k {
+			bad++
+			c.Violate(hk.Violation{Fingerprint: "session:concurrent-delete-not-exactly-one", What: "of several overlapping DELETEs of one live session id exactly one must end the session (200) and the others must be refused with 404",
+				Input: map[string]any{"round": i, "deleters": k}, Observed: res, Expected: "one 200, the rest 404"})
+		}
+		live, _ := f.S.GetActiveSessions()
+		for _, id := range live {
+			if id == sid {
+				c.Violate(hk.Violation{Fingerprint: "session:live-set-differs-from-history", What: "a deleted session is still reported live", Input: map[string]any{"round": i}, Observed: live})
+			}
+		}
+	}
 }
 
 func runSessionHistory(c *hk.Ctx, cfg hk.SrvCfg, h []sOp, foreignID string, dist map[string]int) {
@@ -181,9 +248,25 @@ func runSessionHistory(c *hk.Ctx, cfg hk.SrvCfg, h []sOp, foreignID string, dist
 			sender.SendProgress(0.5, "half way")
 			sender.SendLogMessage("info", "chatty")
 		}
-		return mcp.NewTextResult("done"), nil
+		// the session the request is served in: a per-session visit counter kept in the session's own data, and what an
+		// earlier initialize stored there (stateful: the k-th call in a session sees k; stateless: every call sees a fresh one)
+		visits, pv := "nosession", "none"
+		if sess, ok := mcp.GetSessionFromContext(ctx); ok && sess != nil {
+			n := 0
+			if v, ok := sess.GetData("verif-visits"); ok {
+				n, _ = v.(int)
+			}
+			n++
+			sess.SetData("verif-visits", n)
+			visits = fmt.Sprint(n)
+			if v, ok := sess.GetData("protocolVersion"); ok {
+				pv = fmt.Sprint(v)
+			}
+		}
+		return mcp.NewTextResult("done visits=" + visits + " pv=" + pv + ";"), nil
 	})
-	ids := []string{}       // symbolic index -> real id
+	chattyCalls := map[int]int{} // symbolic session -> chatty calls served in it so far
+	ids := []string{}            // symbolic index -> real id
 	idx := map[string]int{} // real id -> symbolic index
 	streams := map[int]*hk.Stream{}
 	expectedAlive := map[int]bool{} // the spec, maintained from accepted issues and accepted deletes only
@@ -278,6 +361,23 @@ func runSessionHistory(c *hk.Ctx, cfg hk.SrvCfg, h []sOp, foreignID string, dist
 				if refKind == "sid" && expectedAlive[refSid] && (op.K == "request" || op.K == "requestChatty" || op.K == "initOk") {
 					if r.Status != 200 || out["sid"] != any(refSid) {
 						c.Violate(hk.Violation{Fingerprint: "session:live-id-not-served", What: "request bearing a live session id not served with 200 and the same id", Input: map[string]any{"cfg": cfg, "history": h[:oi+1]}, Observed: map[string]any{"status": r.Status, "sid": out["sid"]}})
+					}
+				}
+			}
+			if op.K == "requestChatty" && r.Status == 200 {
+				m := visitsRe.FindStringSubmatch(string(r.Body))
+				switch {
+				case m == nil:
+					c.Violate(hk.Violation{Fingerprint: "session:tool-answer-missing", What: "a served tools/call carries no answer of the tool", Input: map[string]any{"cfg": cfg, "history": h[:oi+1]}, Observed: string(r.Body)})
+				case cfg.Mode == "stateless" && (m[1] != "1" || m[2] != "none"):
+					// the answer must not depend on any earlier request: a fresh throw-away session every time
+					c.Violate(hk.Violation{Fingerprint: "session:stateless-answer-depends-on-id-or-history", What: "in stateless mode the answer must not depend on a session id or on earlier requests (the tool found data of earlier requests in its session)",
+						Input: map[string]any{"cfg": cfg, "history": h[:oi+1], "ref": refKind}, Observed: m[0], Expected: "visits=1 pv=none"})
+				case cfg.Mode == "stateful" && refKind == "sid" && expectedAlive[refSid]:
+					chattyCalls[refSid]++
+					if m[1] != fmt.Sprint(chattyCalls[refSid]) {
+						c.Violate(hk.Violation{Fingerprint: "session:request-not-served-in-its-session", What: "a request bearing a live id was not served in that session (the session's own data is not what its earlier requests left)",
+							Input: map[string]any{"cfg": cfg, "history": h[:oi+1]}, Observed: m[0], Expected: fmt.Sprintf("visits=%d", chattyCalls[refSid])})
 					}
 				}
 			}
